@@ -360,3 +360,11 @@ def run(ctx: Ctx, rep: Report, tier: str) -> None:
     rep.rule("R04.2")
     check_strictly_above(ctx, rep, analyse_shading(ctx))
     r04_3(ctx, rep)
+    # R04.4 premise: the working copy delete_shadow filters is a faithful copy (items, not re-parsed text)
+    from .c16 import items_before_line
+
+    items_before_line(ctx, rep, rid="R04.4")
+    # R04.5 premise: the removal uses the report computed under the caller's skip options
+    from .c11 import skip_forwarding
+
+    skip_forwarding(ctx, rep, rid="R04.5")
